@@ -171,9 +171,11 @@ pub(crate) fn add_str_find<W, R, T>(
                 return xerr(ManagedXError::new("index out of bounds", rt)?);
             }
             let haystack = string.substr(start_ind, None);
+            // `str::find` answers a byte offset inside the haystack: positions are counted in characters
+            let hay_start = string.bytes() - haystack.len();
             let found_idx = haystack
                 .find(needle.as_str())
-                .map(|i| ManagedXValue::new(XValue::Int((i + start_ind).into()), rt.clone()))
+                .map(|i| ManagedXValue::new(XValue::Int(string.char_index_of_byte(hay_start + i).into()), rt.clone()))
                 .transpose()?;
             Ok(manage_native!(XOptional { value: found_idx }, rt))
         }),
@@ -209,7 +211,8 @@ pub(crate) fn add_str_rfind<W, R, T>(
             let haystack = string.substr(0, end_ind);
             let found_idx = haystack
                 .rfind(needle.as_str())
-                .map(|i| ManagedXValue::new(XValue::Int(i.into()), rt.clone()))
+                // a byte offset: positions are counted in characters
+                .map(|i| ManagedXValue::new(XValue::Int(string.char_index_of_byte(i).into()), rt.clone()))
                 .transpose()?;
             Ok(manage_native!(XOptional { value: found_idx }, rt))
         }),
